@@ -202,6 +202,11 @@ pub fn drive(d: &mut Driver)
 	}
 	d.phase("dependency graphs x permutations", jobs);
 	d.phase("duplicate names, type legality per position, word sizes", vec![json!({"space": "duplicates"}), json!({"space": "legality"}), json!({"space": "words"})]);
+	let depth = 3usize;
+	let nterms = deep_terms(depth).len();
+	d.bound("deep type terms", json!({"constructors": DEEP_CONSTRUCTORS, "bases": DEEP_BASES, "max constructors": depth, "terms": nterms, "positions": DEEP_POSITIONS, "arrangements of (declaration, N, helpers S W O, main)": 5}));
+	let jobs: Vec<Value> = (0..nterms).step_by(10).map(|lo| json!({"space": "deeptypes", "depth": depth, "lo": lo, "hi": (lo + 10).min(nterms)})).collect();
+	d.phase("deep type terms x positions x arrangements (order independence)", jobs);
 	d.assume("model: a container depends on another through a constant in its initialiser, a named array length, a member of structure type, or a size-of in a constant; members of pointer type do not count (docs/errors.md E413, E415, E416)");
 	d.assume("type legality is taken from the documented rules only (E350-E359, E380, docs/features.md external ABI); positions the documentation does not fix are judged for order-independence and absence of crashes only");
 }
@@ -313,6 +318,19 @@ pub fn work(spec: &Value, w: &mut WorkerCtx)
 			{
 				w.result.transitions += text_orders.len() as u64;
 				judge_orders(&text_orders, expect, &what, w);
+			}
+		}
+		"deeptypes" =>
+		{
+			let terms = deep_terms(spec["depth"].as_u64().unwrap() as usize);
+			for ti in spec["lo"].as_u64().unwrap() as usize..spec["hi"].as_u64().unwrap() as usize
+			{
+				for pos in DEEP_POSITIONS
+				{
+					let (what, texts) = deep_type_cell(&terms[ti], pos);
+					w.result.transitions += texts.len() as u64;
+					judge_orders(&texts, None, &what, w);
+				}
 			}
 		}
 		"words" =>
@@ -444,6 +462,101 @@ pub fn legality_cells() -> Vec<(String, Vec<String>, Option<Vec<u16>>)>
 		out.push((format!("[name]T whose length names {what}"), texts, Some(vec![433, 402, 500, 405])));
 	}
 	out
+}
+
+/// Every type term of up to three constructors over {&, [3], [], [N], [..]} and four bases (a
+/// primitive, a structure, a word, an opaque structure) in every declaration position, under five
+/// arrangements of the declaration, the constant N and the declarations of S, W and O. The
+/// expectation is order-independence (and no crash, no silent failure): whether a term is legal
+/// in a position is judged by `legality_cells` on the hand-picked terms only.
+pub const DEEP_CONSTRUCTORS: [&str; 5] = ["&", "[3]", "[]", "[N]", "[..]"];
+pub const DEEP_BASES: [&str; 4] = ["i32", "S", "W", "O"];
+pub const DEEP_POSITIONS: [&str; 8] = ["variable", "parameter", "struct member", "word member", "return type", "extern parameter", "size-of operand", "member of a structure that is used as a member"];
+
+pub fn deep_terms(max_depth: usize) -> Vec<String>
+{
+	let mut terms: Vec<String> = Vec::new();
+	let mut layer: Vec<String> = DEEP_BASES.iter().map(|b| b.to_string()).collect();
+	for _ in 0..max_depth
+	{
+		let mut next = Vec::new();
+		for t in &layer
+		{
+			for c in DEEP_CONSTRUCTORS
+			{
+				next.push(format!("{c}{t}"));
+			}
+		}
+		terms.extend(next.iter().cloned());
+		layer = next;
+	}
+	terms
+}
+
+/// Cause-level features of a type term (for the signature of a violation).
+fn deep_features(t: &str) -> String
+{
+	let mut f: Vec<&str> = Vec::new();
+	if let Some(i) = t.find("[N]")
+	{
+		f.push(if t[..i].contains('&') { "named length behind a pointer" } else { "named length" });
+	}
+	if t.ends_with('O')
+	{
+		let wrappers = &t[..t.len() - 1];
+		f.push(if wrappers.ends_with('&') { "pointer to opaque" } else if wrappers.is_empty() { "opaque" } else { "array of opaque" });
+		if wrappers.len() > 1 && wrappers[..wrappers.len() - 1].contains('&')
+		{
+			f.push("behind a pointer");
+		}
+	}
+	if t.ends_with('S')
+	{
+		f.push("structure");
+	}
+	if t.ends_with('W')
+	{
+		f.push("word");
+	}
+	if t.contains("[..]")
+	{
+		f.push("endless array");
+	}
+	if t.contains("[]")
+	{
+		f.push("view");
+	}
+	if f.is_empty()
+	{
+		f.push("primitive compound");
+	}
+	f.join(", ")
+}
+
+pub fn deep_type_cell(t: &str, pos: &str) -> (String, Vec<String>)
+{
+	let helpers = "struct S\n{\n\ta: i32,\n}\nword32 W\n{\n\ta: i32,\n}\nstruct O;\n";
+	let main = "fn main()\n{\n}\n";
+	let n_const = "const N: usize = 2;\n";
+	let decl = match pos
+	{
+		"variable" => format!("fn f()\n{{\n\tvar v: {t};\n}}\n"),
+		"parameter" => format!("fn f(p: {t})\n{{\n}}\n"),
+		"struct member" => format!("struct T\n{{\n\tm: {t},\n}}\n"),
+		"word member" => format!("word64 T\n{{\n\tm: {t},\n}}\n"),
+		"return type" => format!("fn f() -> {t};\n"),
+		"extern parameter" => format!("extern fn f(p: {t});\n"),
+		"size-of operand" => format!("const K: usize = |:{t}|;\n"),
+		_ => format!("struct U\n{{\n\tt: T,\n}}\nstruct T\n{{\n\tm: {t},\n}}\n"),
+	};
+	let texts = vec![
+		format!("{n_const}{helpers}{decl}{main}"),
+		format!("{decl}{main}{helpers}{n_const}"),
+		format!("{main}{helpers}{n_const}{decl}"),
+		format!("{helpers}{decl}{n_const}{main}"),
+		format!("{n_const}{decl}{helpers}{main}"),
+	];
+	(format!("deep type term ({}) as {pos} :: {t}", deep_features(t)), texts)
 }
 
 /// Only what the documentation states.
@@ -601,7 +714,8 @@ fn documented_legality(t: &str, pos: &str) -> Option<Vec<u16>>
 fn judge_orders(texts: &[String], expect: Option<Vec<u16>>, what: &str, w: &mut WorkerCtx)
 {
 	w.result.states += 1;
-	let class: String = what.chars().map(|c| if c.is_ascii_digit() { '#' } else { c }).collect();
+	// the part before " :: " (when present) is the cause-level class of the case
+	let class: String = what.split(" :: ").next().unwrap_or(what).chars().map(|c| if c.is_ascii_digit() { '#' } else { c }).collect();
 	let desc = || json!({"what": what, "orders": texts, "expect": expect, "sig_hint": class, "size": texts[0].len()});
 	let d = desc().to_string().into_bytes();
 	let size = texts[0].len() as u64;
